@@ -5,29 +5,81 @@ import Valida.Path
 import ValidaSpec.Walk
 import ValidaProofs.Lemmas.Basic
 import ValidaProofs.C03
+import ValidaProofs.Lemmas.C04Paths
+import ValidaProofs.Lemmas.C04GetData
 namespace ValidaProofs
 open Valida ValidaGen ValidaSpec
+open C04
 
 /-- one step is truthful: looking a matched key up in the node gives the matched child
-    (mappings with pairwise distinct keys; list indices always) -/
+    (mappings with pairwise distinct keys on which `==` is reflexive and symmetric; list indices
+    always) -/
+-- STATEMENT CHANGED: the hypothesis on mapping nodes now also asks `==` to be symmetric on the keys
+-- (`pyEq a.1 b.1 = pyEq b.1 a.1`).  `DistinctKeys` only says that no *earlier* key `==` a later one,
+-- whereas `Py.dictGet k` tests `pyEq k k'` with the looked-up key on the left, and the model's `==`
+-- is not symmetric on association lists with duplicate keys.  Counterexample to the original
+-- statement (kernel-checked in the `example` below): `A = {1: 1, 2: 2}`, `B = [(1,1),(1,1)]` as a
+-- mapping, `pyEq A B = false`, `pyEq B A = true`, both reflexive; node `{A: 1, B: 2}` and a part with
+-- the null condition: the step reports `(B, 2)` but `childAt node B = some 1`.
+-- Keys of real mappings are hashable, for which the extra hypothesis (and reflexivity) holds:
+-- `C04_step_truthful_hashable`.
 theorem C04_step_truthful (p : Part) (node : PyVal) (kvs : List (PyVal × PyVal))
     (h : stepNode p node = .ok kvs)
-    (hd : ∀ items, node = .dict items → DistinctKeys items ∧ ∀ kv ∈ items, PyVal.pyEq kv.1 kv.1 = true) :
+    (hd : ∀ items, node = .dict items → DistinctKeys items ∧ (∀ kv ∈ items, PyVal.pyEq kv.1 kv.1 = true) ∧
+      ∀ a ∈ items, ∀ b ∈ items, PyVal.pyEq a.1 b.1 = PyVal.pyEq b.1 a.1) :
     ∀ kv ∈ kvs, childAt node kv.1 = some kv.2 := by
-  sorry
+  intro kv hkv
+  obtain ⟨hlist, hdict⟩ := C03_step_items p node kvs h
+  cases node with
+  | list xs => exact childAt_of_mem_zip_range xs kv ((hlist xs rfl).subset hkv)
+  | dict items =>
+    obtain ⟨h1, h2, h3⟩ := hd items rfl
+    exact dictGet_of_mem items h1 h2 h3 kv ((hdict items rfl).subset hkv)
+  | _ =>
+    rw [(C03_inapplicable p _ (by intro xs; simp) (by intro xs; simp))] at h
+    cases h
+    simp at hkv
+
+/-- the counterexample to the original statement of `C04_step_truthful` (see above) -/
+example :
+    let A : PyVal := .dict [(.int 1, .int 1), (.int 2, .int 2)]
+    let B : PyVal := .dict [(.int 1, .int 1), (.int 1, .int 1)]
+    let node : PyVal := .dict [(A, .int 1), (B, .int 2)]
+    let p : Part := { kind := .map, cond := Cond.null, listCond := Cond.null, mapCond := Cond.null, label := none }
+    (PyVal.pyEq A B = false ∧ PyVal.pyEq A A = true ∧ PyVal.pyEq B B = true) ∧
+    (match stepNode p node with
+     | .ok kvs => kvs.length == 2 && PyVal.pyEq (.list (kvs.map (·.1))) (.list [A, B])
+     | .error _ => false) = true ∧
+    (match stepNode p node with
+     | .ok kvs => kvs.all (fun kv => match childAt node kv.1 with
+         | some v => PyVal.pyEq v kv.2 | none => false)
+     | .error _ => true) = false ∧
+    (match childAt node B with | some v => PyVal.pyEq v (.int 1) | none => false) = true := by
+  decide +kernel
+
+/-- … in particular for mappings whose keys are hashable (every Python `dict`) -/
+theorem C04_step_truthful_hashable (p : Part) (node : PyVal) (kvs : List (PyVal × PyVal))
+    (h : stepNode p node = .ok kvs)
+    (hd : ∀ items, node = .dict items → DistinctKeys items ∧ ∀ kv ∈ items, PyVal.hashable kv.1 = true) :
+    ∀ kv ∈ kvs, childAt node kv.1 = some kv.2 := by
+  apply C04_step_truthful p node kvs h
+  intro items hi
+  obtain ⟨h1, h2⟩ := hd items hi
+  exact ⟨h1, fun kv hkv => pyEq_refl_of_hashable _ (h2 kv hkv),
+    fun a ha b _ => pyEq_symm_of_hashable _ _ (h2 a ha)⟩
 
 /-- every (value, path) pair of the walk is such that indexing the document along the path reaches
     the value – given that each step is truthful on the nodes it visits -/
 theorem C04_truthful (children : Part → PyVal → List (PyVal × PyVal)) (parts : List Part) (doc : PyVal)
     (htr : ∀ p node kv, kv ∈ children p node → childAt node kv.1 = some kv.2) :
     ∀ vq ∈ walk children parts doc [], index doc vq.2 = some vq.1 := by
-  sorry
+  exact walk_truthful children doc htr parts doc [] rfl
 
 /-- the paths are pairwise distinct when each step returns pairwise distinct keys -/
 theorem C04_distinct (children : Part → PyVal → List (PyVal × PyVal)) (parts : List Part) (doc : PyVal) (pre : List PyVal)
     (hk : ∀ p node, ((children p node).map (·.1)).Nodup) :
     ((walk children parts doc pre).map (·.2)).Nodup := by
-  sorry
+  exact walk_paths_nodup children hk parts doc pre
 
 /-- the result without paths is the same values in the same order -/
 theorem C04_same_values (p : Path) (doc : PyVal) (hne : p.parts ≠ []) (hm : p.multi = .none ∨ p.multi = .all)
@@ -36,7 +88,7 @@ theorem C04_same_values (p : Path) (doc : PyVal) (hne : p.parts ≠ []) (hm : p.
     ∃ vals, p.getData (some doc) false = .ok (.list vals) ∧
       vals.length = withP.length ∧
       ∀ (i : Nat) (v : PyVal), vals[i]? = some v → ∃ q, withP[i]? = some (PyVal.tuple [v, q]) := by
-  sorry
+  exact getData_same_values p doc hne hm hc withP h
 
 /-- datum modifiers: that function of each selected node -/
 theorem C04_datum_fn (v : PyVal) :
@@ -44,7 +96,7 @@ theorem C04_datum_fn (v : PyVal) :
     datumFn .length v = Py.len v ∧
     (∀ kvs, datumFn .mapKeys (.dict kvs) = .ok (.list (kvs.map (·.1)))) ∧
     (∀ kvs, datumFn .mapValues (.dict kvs) = .ok (.list (kvs.map (·.2)))) := by
-  sorry
+  refine ⟨rfl, rfl, rfl, fun _ => rfl, fun _ => rfl⟩
 
 /-- multiplicity modifiers on a non-empty selection: the first, the last, the only (an error if there
     are several), all -/
@@ -56,30 +108,41 @@ theorem C04_multi (x : PyVal) (rest : List PyVal) (c : Bool) :
     matchMulti .all c (x :: rest) = .ok (.list (x :: rest)) ∧
     matchMulti .none false (x :: rest) = .ok (.list (x :: rest)) ∧
     matchMulti .none true (x :: rest) = .ok x := by
-  sorry
+  refine ⟨rfl, ?_, rfl, ?_, rfl, rfl, rfl⟩
+  · simp [matchMulti, List.getLast?_eq_some_getLast]
+  · intro hr
+    cases rest with
+    | nil => exact absurd rfl hr
+    | cons y ys => simp [matchMulti]
 
 /-- the two kinds of modifier commute: both application orders build the same path -/
 theorem C04_commute (p : Path) (d : DatumMod) (m : MultiMod) :
     (p.withDatum d).bind (fun q => q.withMulti m) = (p.withMulti m).bind (fun q => q.withDatum d)
     ∨ ((p.withDatum d).bind (fun q => q.withMulti m)).toOption = none
       ∧ ((p.withMulti m).bind (fun q => q.withDatum d)).toOption = none := by
-  sorry
+  exact Or.inl (withDatum_withMulti p d m)
 
 /-- multiplicity modifiers are refused on concrete paths -/
 theorem C04_concrete_refuses (p : Path) (m : MultiMod) (hc : p.concrete = true) (hm : m ≠ .none) :
     p.withMulti m = .error .valueError := by
-  sorry
+  unfold Path.withMulti
+  cases m <;> simp_all
 
 /-- a modifier can be set only once -/
 theorem C04_modifier_once (p : Path) (d d' : DatumMod) (q : Path) (hd : d ≠ .none) (h : p.withDatum d = .ok q) :
     q.withDatum d' = .error .valueError := by
-  sorry
+  unfold Path.withDatum at h ⊢
+  split at h
+  · simp at h
+  · simp at h
+    subst h
+    simp [hd]
 
 /-- an empty selection is `[]` (non-concrete) whatever the modifiers -/
 theorem C04_empty_selection (p : Path) (doc : PyVal) (rp : Bool) (hne : p.parts ≠ []) (hc : p.concrete = false)
     (h : ∃ paths, walkParts p.parts true [match p.source with | some s => if PyVal.truthy s then s else doc | none => doc] [] = .ok ([], paths))
     (hdoc : PyVal.truthy doc = true) :
     p.getData (some doc) rp = .ok (.list []) := by
-  sorry
+  exact getData_empty_selection p doc rp hne hc h hdoc
 
 end ValidaProofs
